@@ -207,11 +207,23 @@ fn check() {
             if maxlen == 4 && list.len() < 4 {
                 return; // shorter lists were done with the full request grid
             }
-            for (fa, fb) in &featsets {
+            // the list is installed on a fresh state, and on a state that already carried another list: the same
+            // filters with every target rotated (A->B->deny->A), or the list reversed - whatever was in force before
+            // must not show through
+            let rotated: Vec<(Filt, &'static str)> = list.iter().map(|(f, t)| (*f, match *t { "A" => "B", "B" => "deny", _ => "A" })).collect();
+            let reversed: Vec<(Filt, &'static str)> = list.iter().rev().cloned().collect();
+            let prevs: Vec<Option<&Vec<(Filt, &'static str)>>> = if list.is_empty() || maxlen == 4 { vec![None] } else { vec![None, Some(&rotated), Some(&reversed)] };
+            for (prev, (fa, fb)) in prevs.iter().flat_map(|p| featsets.iter().map(move |f| (p, f))) {
                 let log: Log = Default::default();
                 let a = Recorder::new("A", fa, Upstream::Ok { origin_sends: b"o".to_vec() }, log.clone());
                 let b = Recorder::new("B", fb, Upstream::Ok { origin_sends: b"o".to_vec() }, log.clone());
                 let state = make_state(vec![a.clone(), b.clone()], 0);
+                if let Some(p) = prev {
+                    let rules = parse_rules(&rules_json(p)).expect("rules parse");
+                    if let Err(e) = block_on(state.set_rules(rules)) {
+                        machinery(format!("set_rules failed for a valid list {:?}: {}", p, e));
+                    }
+                }
                 let rules = parse_rules(&rules_json(list)).expect("rules parse");
                 if let Err(e) = block_on(state.set_rules(rules)) {
                     machinery(format!("set_rules failed for a valid list {:?}: {}", list, e));
@@ -239,7 +251,7 @@ fn check() {
                             (props, client_rx)
                         })
                     });
-                    let replay = json!({"rules": serde_json::from_str::<serde_json::Value>(&rules_json(list)).unwrap(), "request": format!("{:?}", r), "features": {"A": format!("{:?}", fa), "B": format!("{:?}", fb)}, "expected": expect});
+                    let replay = json!({"installed_before": prev.map(|p| serde_json::from_str::<serde_json::Value>(&rules_json(p)).unwrap()), "rules": serde_json::from_str::<serde_json::Value>(&rules_json(list)).unwrap(), "request": format!("{:?}", r), "features": {"A": format!("{:?}", fa), "B": format!("{:?}", fb)}, "expected": expect});
                     let (props, _client_rx) = match res {
                         Err(p) => {
                             chk.violation("process_request", "panic", format!("{:?} {:?}: {p}", list, r), replay);
@@ -383,7 +395,7 @@ fn check() {
         "exhaustive": true,
         "states": outcomes.len(), "transitions": n, "traces_validated_against_impl": n,
         "evaluations": n + attr_cases + cidr_cases, "distinct_nontrivial": nt,
-        "rule": "all rule lists of length 0..3 (thorough: + all of length 4) over 12 shapes (4 filters incl. one that fails to evaluate x targets A,B,deny) x request grid (quick 12 representatives, thorough 96: listener x source family x target kind x port x feature) x 2 upstream feature sets, each through the real set_rules + process_request with recorder connectors. non-trivial = more than one rule matches or removing the first rule changes the decision (counted per run). states = distinct (connect calls, callbacks, recorded connector) observations",
+        "rule": "all rule lists of length 0..3 (thorough: + all of length 4) over 12 shapes (4 filters incl. one that fails to evaluate x targets A,B,deny) x request grid (quick 12 representatives, thorough 96: listener x source family x target kind x port x feature) x 2 upstream feature sets, each through the real set_rules + process_request with recorder connectors, on a fresh state and on a state that carried the same filters with rotated targets / the reversed list before. non-trivial = more than one rule matches or removing the first rule changes the decision (counted per run). states = distinct (connect calls, callbacks, recorded connector) observations",
         "process_request_runs": n, "attribute_cases": attr_cases, "cidr_cases": cidr_cases,
         "samples": [
             {"rules": [{"filter": "to_integer(request.target.host) == 1", "target": "A"}, {"filter": "request.listener == \"l1\"", "target": "deny"}, {"target": "B"}], "request": "l1 127.0.0.1 -> a.b:80 UdpForward", "expected": "refused"},
